@@ -20,7 +20,7 @@ LEVEL_TEXT = {
     "C13": ("model_checking", "Fragment tokenizer vs. FragText.tla: TLC enumerates every bounded fragment token string (descriptors of every kind/label/order at every allowed position, annotations, branches, ring digits, two-letter elements; atomistic and coarse), model-checks that inserting descriptors is inert for text and graph, and TLC compares strip_bonding_descriptors' cleaned text, descriptor lists and annotations with FragText!Strip exactly.", "4.2, 5 C13"),
     "C14": ("model_checking", "Annotation binding vs. Annot.tla: TLC enumerates every bounded entry sequence, model-checks positional=keyword, keyword-order irrelevance, defaults, numeric canonicity and verbatim free keys, and validates the attributes that arrive in the returned graphs at three sites (base node, coarse-fragment node, atom; reuse 1-3) against Annot!Bind.", "4.3, 5 C14"),
     "C15": ("model_checking", "Stereo vs. FragText!FragRel / ChiralOf: the cis/trans relations and chirality labels of the UNCUT molecule are computed by TLC from its token string (OpenSMILES semantics of the slash marks relative to writing order); stereo molecules are cut at the double bond, at single bonds elsewhere and through marked bonds, rendered with each fragment's marks in its own writing order, resolved, and TLC compares the observed relations (mapped through the checked witness), that every stored tuple is a path ligand-atom=atom-ligand, and that chirality labels sit on the witness-image atoms.", "5 C15"),
-    "C16": ("model_checking", "Sampler vs. Sampler.tla: SamplerMC explores every growth trajectory of the small configurations (tree, complementary, once, never-zero, terminal invariants) and every finished trajectory is forced through the real sampler with a scripted RNG; every sampled molecule is decomposed into growth events and replayed through the spec's Grow action (one TLC state per event, each must be enabled), and validated as a resolved molecule (copy fidelity, numbering, valence).", "4.6, 5 C16"),
+    "C16": ("model_checking", "Sampler vs. Sampler.tla: SamplerMC explores every growth trajectory of the small configurations (tree, complementary, once, never-zero, terminal invariants) and every finished trajectory is forced through the real sampler with a scripted RNG; every sampled molecule is decomposed into growth events and replayed through the spec's Grow action (one TLC state per event, each must be enabled), and validated as a resolved molecule (copy fidelity, numbering, valence); plus spec->code replay of OpenBonds.tla (find_open_bonds on every workbench state and target set, the complementarity table of find_complementary_bonding_descriptor).", "4.6, 5 C16"),
     "C17": ("model_checking", "Sampler vs. Sampler.tla with the RNG interposed in the harness process: at every draw the offered population and the positivity of its weights must equal the specification's enabled set (never-zero site/partner), leftover descriptors must equal the spec's open descriptors (terminal closes atom / terminals withdrawn), stop rule, element-derived masses vs. Chem.tla; seed histories in fresh processes under several PYTHONHASHSEEDs.", "4.6, 5 C17"),
     "C18": ("other", "RDKit bridge and forward mapping: the harness measures (chemistry before/after the round trip, which conformer atom's coordinates every node received, bead coefficient vectors obtained exactly by probing the linear map with unit positions), TLC evaluates the predicates of GeomTrace.tla (index model: node at iteration position p becomes RDKit atom p-1; coefficient = w/sum(w) over integers). Not model checking of geometry - stated in DESIGN.md.", "5 C18"),
     "C19": ("other", "2D layout: connected atlas graphs <= 6 nodes, paths/stars/rings/ladders, resolved molecules with hydrogens and E/Z marks x bond lengths x relabelings x NumPy seeds; the harness measures, TLC evaluates all-nodes / finite / no coincident bonded pair / mean bond length = requested (1e-6) on integer-scaled values. Thin by design: TLA+ cannot decide floating-point geometry.", "5 C19"),
